@@ -161,10 +161,9 @@ def run(case, thr_cls):
                   devname='bkg:' + attr)
         case.note('bkg_reads')
         case.note('bkg_seq:' + seqkey)
-        if attr in NEEDS_MESH and out_live.ok:
-            mesh_done = True
-        if attr in NEEDS_RMS and out_live.ok:
-            rms_done = True
+        # which meshes are materialised now (only used for the mechanism key, never for a verdict)
+        mesh_done = 'background_mesh' in live.__dict__
+        rms_done = 'background_rms_mesh' in live.__dict__
     # configuration attributes must still read as constructed
     f = build(thr)
     for name in ('box_size', 'fill_value', 'exclude_percentile', 'filter_size', 'filter_threshold',
